@@ -2,6 +2,11 @@
   Props/C01.lean — C01 "every diagram the library hands back is well-typed".
   Property theorems only; proofs are appeals to Proofs/WF.lean and Proofs/WFOps.lean.
 
+  Free-category level (class `cat`, Model/CatArrow.lean): `LArrow.WF a` says that reading the boxes of
+  a plain arrow from its domain, each box finds its own domain and the reading ends on the codomain.
+  The n-ary calling convention of `then` / `tensor` (cat.py:307-310, monoidal.py:384-385, 419-422)
+  is `Diagram.thenN` / `Diagram.tensorN` / `LArrow.thenN`; `cat.Functor.__call__` is `CFunctor.apply`.
+
   `Diagram.WF d` says: `boxes`/`offsets` are the projections of the layer view, the layer
   view reads from `d.dom` to `d.cod`, each layer finding `left ++ box.dom ++ right` — i.e.
   the statement of C01 for one value.
@@ -9,6 +14,7 @@
 import Proofs.WFOps
 import Proofs.Foliate
 import Proofs.CircuitBox
+import Proofs.CatArrow
 
 namespace DV.C01
 open DV
@@ -91,6 +97,88 @@ theorem cups_wf (l r : Ty) (d : Diagram) (h : Diagram.cups l r = .ok d) : d.WF :
 theorem caps_wf (l r : Ty) (d : Diagram) (h : Diagram.caps l r = .ok d) : d.WF :=
   Diagram.caps_wf h
 
+/-! ### The n-ary calling convention: `recv.then(b₁, …, bₙ)`, `recv.tensor(b₁, …, bₙ)` -/
+
+/-- n-ary composition of well-typed diagrams is accepted exactly when every junction matches —
+    the junction between the receiver and the first argument included, whatever the receiver is
+    (an identity is no exception). -/
+theorem thenN_ok_iff (a : Diagram) (bs : List Diagram) (ha : a.WF) (hbs : ∀ b ∈ bs, b.WF) :
+    (∃ d, a.thenN bs = .ok d) ↔ Junctions a.cod bs := Diagram.thenN_ok_iff ha hbs
+
+/-- … and is refused with an axiom error otherwise. -/
+theorem thenN_refused (a : Diagram) (bs : List Diagram) (ha : a.WF) (hbs : ∀ b ∈ bs, b.WF)
+    (h : ¬ Junctions a.cod bs) : a.thenN bs = .error .axiom := Diagram.thenN_refused ha hbs h
+
+/-- What it hands back is well-typed, starts where the receiver starts, ends where the last
+    argument ends and has the boxes of the receiver and of all arguments, in order. -/
+theorem thenN_wf (a d : Diagram) (bs : List Diagram) (ha : a.WF) (hbs : ∀ b ∈ bs, b.WF)
+    (h : a.thenN bs = .ok d) :
+    d.WF ∧ d.dom = a.dom ∧ d.cod = lastCod a.cod bs ∧
+      d.boxes = a.boxes ++ (bs.map (·.boxes)).flatten := Diagram.thenN_props ha hbs h
+
+/-- The n-ary tensor always succeeds on well-typed diagrams and is well-typed. -/
+theorem tensorN_wf (a : Diagram) (bs : List Diagram) (ha : a.WF) (hbs : ∀ b ∈ bs, b.WF) :
+    ∃ d, a.tensorN bs = .ok d ∧ d.WF ∧ d.dom = a.dom ++ (bs.map (·.dom)).flatten ∧
+      d.cod = a.cod ++ (bs.map (·.cod)).flatten := Diagram.tensorN_props ha hbs
+
+/-! ### The class `cat`: plain arrows and functors (cat.py) -/
+
+/-- `Arrow(dom, cod, boxes)` hands back a value exactly when the boxes read from `dom` to `cod`,
+    and then the value carries the requested fields. -/
+theorem cat_mk_ok_iff (dom cod : Ty) (bs : List Layer) (a : LArrow) :
+    LArrow.mk? dom cod bs = .ok a ↔ a = ⟨dom, cod, bs⟩ ∧ Chain dom bs cod := LArrow.mk?_ok_iff
+
+theorem cat_mk_refused (dom cod : Ty) (bs : List Layer) (h : ¬ Chain dom bs cod) :
+    LArrow.mk? dom cod bs = .error .axiom := LArrow.mk?_refused h
+
+/-- `recv.then(b₁, …, bₙ)` on plain arrows is accepted exactly when every junction matches,
+    receiver/first argument included (no hypothesis on the receiver: it may have no boxes). -/
+theorem cat_thenN_ok_iff (a : LArrow) (bs : List LArrow) :
+    (∃ d, a.thenN bs = .ok d) ↔ AJunctions a.cod bs := LArrow.thenN_ok_iff a bs
+
+theorem cat_thenN_refused (a : LArrow) (bs : List LArrow) (h : ¬ AJunctions a.cod bs) :
+    a.thenN bs = .error .axiom := LArrow.thenN_refused h
+
+theorem cat_thenN_wf (a d : LArrow) (bs : List LArrow) (ha : a.WF) (hbs : ∀ b ∈ bs, b.WF)
+    (h : a.thenN bs = .ok d) :
+    d.WF ∧ d.dom = a.dom ∧ d.cod = alastCod a.cod bs := by
+  refine ⟨LArrow.thenN_wf ha hbs h, ?_, ?_⟩
+  all_goals (obtain ⟨_, rfl⟩ := LArrow.thenN_ok h; rfl)
+
+/-- `cat.Functor.__call__` as written (cat.py:866-867), for ANY pair of object / arrow mappings —
+    consistent or not —: if an image is handed back, it is well-typed and starts on the image of
+    the domain. -/
+theorem cat_functor_wf (F : CFunctor) (a r : LArrow) (hF : F.ImagesWF)
+    (h : F.applyArrow a = .ok r) : r.WF ∧ F.obj a.dom = .ok r.dom := F.applyArrow_wf hF h
+
+/-- It is handed back exactly when the images of the boxes compose, starting on the image of the
+    domain; otherwise the request is refused … -/
+theorem cat_functor_ok_iff (F : CFunctor) (a : LArrow) :
+    (∃ r, F.applyArrow a = .ok r) ↔
+      ∃ t imgs, F.obj a.dom = .ok t ∧ F.images a.boxes = .ok imgs ∧ AJunctions t imgs :=
+  F.applyArrow_ok_iff a
+
+/-- … with an axiom error. -/
+theorem cat_functor_refused (F : CFunctor) (a : LArrow) (t : Ty) (imgs : List LArrow)
+    (ht : F.obj a.dom = .ok t) (hi : F.images a.boxes = .ok imgs) (hj : ¬ AJunctions t imgs) :
+    F.applyArrow a = .error .axiom := CFunctor.applyArrow_refused ht hi hj
+
+/-- If every box image is typed `F(dom) → F(cod)`, the image of a well-typed arrow is accepted,
+    well-typed, and goes from the image of the domain to the image of the codomain. -/
+theorem cat_functor_typed (F : CFunctor) (a : LArrow) (t : Ty) (imgs : List LArrow)
+    (hF : F.ImagesWF) (ha : a.WF) (hb : ∀ l ∈ a.boxes, F.okOn l)
+    (ht : F.obj a.dom = .ok t) (hi : F.images a.boxes = .ok imgs) :
+    ∃ r, F.applyArrow a = .ok r ∧ r.WF ∧ F.obj a.dom = .ok r.dom ∧ F.obj a.cod = .ok r.cod :=
+  F.applyArrow_typed hF ha hb ht hi
+
+/-- Closure over all sequences of operations of the class `cat` (scanning constructor, boxes,
+    identities, n-ary `then` — `>>`, `<<` are the one-argument case —, dagger, slices, reversed
+    slices, indexing, functor application with arbitrary mappings whose images are well-typed):
+    whatever is handed back is well-typed. -/
+theorem cat_eval_wf (e : CExpr) (x : CVal) (hF : e.ImagesWF) (h : e.eval = .ok x) : x.arrow.WF :=
+  (CExpr.eval_wf e hF h).1
+
+
 /-! ### Circuits: the class-specific box daggers (quantum/circuit.py, quantum/gates.py)
 
 The dagger of a diagram splices `box.dagger()` of each box's own class into the reversed layers
@@ -145,5 +233,29 @@ example : okWith (Expr.interchange (.mk [x] [y] [f, s, e] [0, 1, 0]) 1 2 false).
     (fun d => d.boxes == [f, e, s] && d.offsets == [0, 0, 0]) = true := by decide
 example : isErr (Diagram.mk? [x] [x] [s] [5]) .axiom = true := by decide
 example : isErr (Diagram.mk? [x, y] [x, y] [s] [-1]) .axiom = true := by decide
+
+/-! Non-vacuity for the n-ary convention and the class `cat`: `Id(x).then(f, g)` with
+    `f : y → z`, `g : z → x` is refused although its receiver has no boxes and `f >> g` composes;
+    from `Id(y)` it is accepted.  A functor with `ar = {f ↦ f, g ↦ h}`, `h : x → y` (images that do
+    not compose) is refused on `f >> g`; so is `ob = {y ↦ x, …}` with `ar[f]` still starting on `y`. -/
+private def z : Ob := ⟨"z", 0⟩
+private def cf : Layer := ⟨[], { name := "f", dom := [y], cod := [z] }, []⟩
+private def cg : Layer := ⟨[], { name := "g", dom := [z], cod := [x] }, []⟩
+private def ch : Layer := ⟨[], { name := "h", dom := [x], cod := [y] }, []⟩
+private def bx (l : Layer) : CVal := ⟨l.arrow, true⟩
+private def idOb : List (Ty × Ty) := [([x], [x]), ([y], [y]), ([z], [z])]
+
+example : (CExpr.thenN (.id [x]) [.box cf, .box cg]).eval = .error .axiom := by decide
+example : (CExpr.thenN (.id [y]) [.box cf, .box cg]).eval =
+    .ok ⟨⟨[y], [x], [cf, cg]⟩, false⟩ := by decide
+example : (CExpr.functor ⟨idOb, [(cf, bx cf), (cg, bx ch)]⟩ (.mk [y] [x] [cf, cg])).eval =
+    .error .axiom := by decide
+example : (CExpr.functor ⟨[([x], [x]), ([y], [x]), ([z], [z])], [(cf, bx cf), (cg, bx cg)]⟩
+    (.mk [y] [x] [cf, cg])).eval = .error .axiom := by decide
+example : (CExpr.functor ⟨[([x], [y]), ([y], [z]), ([z], [x])], [(cf, bx cg), (cg, bx ch)]⟩
+    (.mk [y] [x] [cf, cg])).eval = .ok ⟨⟨[z], [y], [cg, ch]⟩, false⟩ := by decide
+example : isErr (Expr.thenN (.id [x]) [.box e, .box s]).eval .axiom = true := by decide
+example : okWith (Expr.thenN (.id [y]) [.box e, .box s]).eval
+    (fun d => d.boxes == [e, s] && d.dom == [y]) = true := by decide
 
 end DV.C01
